@@ -76,6 +76,30 @@ CAUSES = [
 ]
 
 
+def holds_checksum(structs, tables, name, seen=None):
+    """does an instance of struct `name` contain (at any depth) a checksum member — a value that depends on where in the
+    buffer the instance is written, so that encoding ONE instance twice stores two different values back into it"""
+    seen = seen if seen is not None else set()
+    if name in seen:
+        return False
+    seen.add(name)
+    st = next((x for x in structs if x["name"] == name), None)
+    if st is None:
+        return False
+
+    def step(e):
+        if not isinstance(e, list) or not e:
+            return False
+        if e[0] == "checksum":
+            return True
+        if e[0] == "object":
+            return holds_checksum(structs, tables, e[1], seen)
+        if e[0] == "dynamic":      # any payload the tables can put there
+            return any(holds_checksum(structs, tables, tgt, seen) for t in tables for _, tgt in t.get("entries", []))
+        return any(step(x) for x in e if isinstance(x, list))
+    return any(step(e) for e in st["enc"])
+
+
 def attribute(cause, features):
     for name, feat, pat in CAUSES:
         if feat in features and re.search(pat, cause):
@@ -474,7 +498,8 @@ def run_c17(ctx):
                     if cls == "decode-fails":
                         cause += "/" + (r.get("why_" + mode) or "unexplained")
                     if (cls == "pass" and mode == "sum" and T.get("shared") and tex["flags"].get("storeBack")
-                            and "nested-computed" in r.get("features", [])):
+                            and "nested-computed" in r.get("features", [])
+                            and any(holds_checksum(ex["structs"], ex.get("tables") or [], n) for n in T["shared"])):
                         # one instance stored in two places (the locals are references): it is encoded twice and the store-back of
                         # the second encode overwrites the checksum the first one wrote — the tree-shaped model does not see it
                         model, cause = "mismatch", "mismatch/with-checksum-service/shared-instance"
